@@ -26,6 +26,7 @@ func init() {
 			ruleLabelIdentity(r)
 			ruleJSONLeaves(r)
 			ruleJSONPathWalk(r)
+			ruleStructEquality(r, "internal/logql/logqlengine/jsonexpr", "Path", "Equal")
 			ruleSetErrorFirstWins(r)
 			ruleSanitiserSites(r)
 		},
